@@ -281,6 +281,12 @@ fn bfs(
 		let fl: Mutex<Vec<Found>> = Mutex::new(vec![]);
 		let seen_m = Mutex::new(&mut seen);
 		let trans = std::sync::atomic::AtomicU64::new(0);
+		// memory discipline: the last level's states are only counted, and a level's frontier may
+		// hold at most FRONTIER_BYTES of file images (states beyond that are checked but not expanded)
+		const FRONTIER_BYTES: u64 = 6 << 30;
+		let held = std::sync::atomic::AtomicU64::new(0);
+		let dropped = std::sync::atomic::AtomicU64::new(0);
+		let last_level = depth == max_depth;
 		frontier.par_iter().for_each(|st| {
 			let wdir = fresh_dir("bptw");
 			let p: PathBuf = wdir.join("t.bpt");
@@ -306,8 +312,16 @@ fn bfs(
 					let h = fnv64(&bytes);
 					let mut s = seen_m.lock().unwrap();
 					if s.insert(h) {
+						drop(s);
 						let mut path = st.path.clone();
 						path.push(*op);
+						if last_level {
+							return Ok(None);
+						}
+						if held.fetch_add(bytes.len() as u64, std::sync::atomic::Ordering::Relaxed) > FRONTIER_BYTES {
+							dropped.fetch_add(1, std::sync::atomic::Ordering::Relaxed);
+							return Ok(None);
+						}
 						Ok(Some(State {
 							bytes,
 							model,
@@ -348,6 +362,15 @@ fn bfs(
 		frontier = next.into_inner().unwrap();
 		// deterministic order independent of thread timing
 		frontier.sort_by(|a, b| a.path.len().cmp(&b.path.len()).then_with(|| format!("{:?}", a.path).cmp(&format!("{:?}", b.path))));
+		let dr = dropped.load(std::sync::atomic::Ordering::Relaxed);
+		if dr > 0 {
+			complete = false;
+			completed.push(format!("{}: depth {depth}: {dr} new states were checked but not expanded further (frontier memory cap)", cfg.name));
+		}
+		if last_level {
+			completed.push(format!("{}: BFS depth {depth} complete ({} states)", cfg.name, seen.len()));
+			break;
+		}
 		if frontier.is_empty() {
 			completed.push(format!("{}: BFS closed at depth {depth} ({} states: no new state)", cfg.name, seen.len()));
 			break;
